@@ -114,6 +114,121 @@ Section Rel.
   Qed.
 End Rel.
 
+(* ---------- the same relation with the length of the common part: loops run on any fuel that exceeds it ---------- *)
+Section RelN.
+  Variables (p k1 k2 : toks).
+  Hypothesis T1 : theaded k1.
+  Hypothesis T2 : theaded k2.
+
+  Definition reln (m : nat) (ts1 ts2 : toks) : Prop :=
+    exists pre q, p = (pre ++ q)%list /\ length q = m /\ ts1 = (q ++ k1)%list /\ ts2 = (q ++ k2)%list.
+
+  (* equal answers; on success the common part has shrunk by at least d *)
+  Definition rreln {A} (d m : nat) (r1 r2 : ExprModel.res (A * toks)) : Prop :=
+    match r1, r2 with
+    | Ok (a, t1), Ok (b, t2) => a = b /\ exists m', m' + d <= m /\ reln m' t1 t2
+    | Err _, Err _ => True
+    | Unsup, Unsup => True
+    | Fuel, Fuel => True
+    | _, _ => False
+    end.
+
+  Lemma reln_rel m ts1 ts2 : reln m ts1 ts2 -> rel p k1 k2 ts1 ts2.
+  Proof. intros (pre & q & E & _ & A & B). exists pre, q. auto. Qed.
+
+  Lemma rel_reln ts1 ts2 : rel p k1 k2 ts1 ts2 -> exists m, reln m ts1 ts2.
+  Proof. intros (pre & q & E & A & B). exists (length q), pre, q. auto. Qed.
+
+  Lemma rreln_rrel {A} d m (r1 r2 : ExprModel.res (A * toks)) : rreln d m r1 r2 -> rrel p k1 k2 r1 r2.
+  Proof.
+    destruct r1 as [[a t1]| | |], r2 as [[b t2]| | |]; cbn [rreln rrel]; auto. intros [E (m' & _ & R)]. split; [exact E|]. eapply reln_rel; eauto.
+  Qed.
+
+  Lemma rreln_weaken {A} d d' m m0 (r1 r2 : ExprModel.res (A * toks)) : d' <= d -> m <= m0 -> rreln d m r1 r2 -> rreln d' m0 r1 r2.
+  Proof.
+    intros L L0. destruct r1 as [[a t1]| | |], r2 as [[b t2]| | |]; cbn [rreln]; auto. intros [E (m' & Lm & R)]. split; [exact E|]. exists m'. split; [lia|exact R].
+  Qed.
+
+  Lemma test_reln f m ts1 ts2 : safe f -> reln m ts1 ts2 -> f (cur ts1) = f (cur ts2).
+  Proof. intros Sf R. exact (test_rel p k1 k2 T1 T2 f _ _ Sf (reln_rel _ _ _ R)). Qed.
+
+  Lemma step_reln f m ts1 ts2 : safe f -> reln m ts1 ts2 -> f (cur ts1) = true ->
+    cur ts1 = cur ts2 /\ exists m', m = S m' /\ reln m' (next ts1) (next ts2).
+  Proof.
+    intros Sf (pre & q & E & L & -> & ->) H. destruct q as [|t q].
+    - exfalso. cbn [app] in H. destruct k1 as [|a r1]; [contradiction|]. cbn [cur] in H. rewrite (Sf a T1) in H. discriminate.
+    - split; [reflexivity|]. cbn [app].
+      assert (N1 : (q ++ k1)%list <> []) by (destruct q; [apply (k1_ne k1 T1)|discriminate]).
+      assert (N2 : (q ++ k2)%list <> []) by (destruct q; [apply (k2_ne k2 T2)|discriminate]).
+      rewrite (next_cons _ _ N1), (next_cons _ _ N2). exists (length q). split; [cbn [length] in L; lia|].
+      exists (pre ++ [t])%list, q. rewrite <- app_assoc. auto.
+  Qed.
+
+  Lemma expect_reln k m ts1 ts2 : safe (fun t => kis t k) -> reln m ts1 ts2 -> rreln 1 m (expect k ts1) (expect k ts2).
+  Proof.
+    intros Sf R. unfold expect. rewrite <- (test_reln _ _ _ _ Sf R). destruct (kis (cur ts1) k) eqn:K; cbn [rreln]; [|exact I].
+    destruct (step_reln _ _ _ _ Sf R K) as [E (m' & -> & R')]. split; [rewrite E; reflexivity|]. exists m'. split; [lia|exact R'].
+  Qed.
+
+  Lemma expect_kw_reln s m ts1 ts2 : reln m ts1 ts2 -> rreln 1 m (expect_kw s ts1) (expect_kw s ts2).
+  Proof.
+    intros R. unfold expect_kw. pose proof (expect_reln K_ident m ts1 ts2 (safe_kis K_ident eq_refl eq_refl) R) as E.
+    destruct (expect K_ident ts1) as [[t r]| | |], (expect K_ident ts2) as [[t' r']| | |]; cbn [rreln bind] in *; try contradiction; auto.
+    destruct E as [-> R']. destruct (is_kwlike t' s); cbn [rreln]; auto.
+  Qed.
+
+  Lemma parse_ident_reln m ts1 ts2 : reln m ts1 ts2 -> rreln 1 m (parse_ident ts1) (parse_ident ts2).
+  Proof.
+    intros R. unfold parse_ident. pose proof (expect_reln K_ident m ts1 ts2 (safe_kis K_ident eq_refl eq_refl) R) as E.
+    destruct (expect K_ident ts1) as [[t r]| | |], (expect K_ident ts2) as [[t' r']| | |]; cbn [rreln bind] in *; try contradiction; auto.
+    destruct E as [-> R']. auto.
+  Qed.
+
+  (* sequencing *)
+  Lemma bind_reln {A B} d1 d2 m (r1 r2 : ExprModel.res (A * toks)) (f1 f2 : A * toks -> ExprModel.res (B * toks)) :
+    rreln d1 m r1 r2 ->
+    (forall a t1 t2 m', m' + d1 <= m -> reln m' t1 t2 -> rreln d2 m' (f1 (a, t1)) (f2 (a, t2))) ->
+    rreln (d1 + d2) m (bind r1 f1) (bind r2 f2).
+  Proof.
+    intros R F. destruct r1 as [[a t1]| | |], r2 as [[b t2]| | |]; cbn [rreln bind] in *; try contradiction; auto.
+    destruct R as [-> (m' & L & R)]. specialize (F b t1 t2 m' L R).
+    destruct (f1 (b, t1)) as [[x u1]| | |], (f2 (b, t2)) as [[y u2]| | |]; cbn [rreln] in *; try contradiction; auto.
+    destruct F as [-> (m2 & L2 & R2)]. split; [reflexivity|]. exists m2. split; [lia|exact R2].
+  Qed.
+
+  (* the loop of parseCommaSeparatedList, for an item parser that is local and consumes at least one common token *)
+  Section CommaList.
+    Context {A : Type} (item : toks -> ExprModel.res (A * toks)).
+    Hypothesis item_reln : forall m ts1 ts2, reln m ts1 ts2 -> rreln 1 m (item ts1) (item ts2).
+
+    Lemma list_more_reln : forall n1 n2 m acc ts1 ts2, reln m ts1 ts2 -> m < n1 -> m < n2 ->
+      rreln 0 m (list_more item n1 acc ts1) (list_more item n2 acc ts2).
+    Proof.
+      induction n1 as [|n1 IH]; intros n2 m acc ts1 ts2 R L1 L2; [lia|]. destruct n2 as [|n2]; [lia|]. cbn [list_more].
+      pose proof (safe_kis "," eq_refl eq_refl) as SC. rewrite <- (test_reln _ _ _ _ SC R).
+      destruct (kis (cur ts1) ",") eqn:K; [|cbn [rreln]; split; [reflexivity|exists m; split; [lia|exact R]]].
+      destruct (step_reln _ _ _ _ SC R K) as [_ (m' & -> & R')].
+      pose proof (item_reln _ _ _ R') as IT.
+      destruct (item (next ts1)) as [[x u1]| | |], (item (next ts2)) as [[y u2]| | |]; cbn [rreln bind] in *; try contradiction; auto.
+      destruct IT as [-> (m2 & Lm & R2)].
+      apply (rreln_weaken 0 0 m2); [lia|lia|]. apply IH; [exact R2|lia|lia].
+    Qed.
+
+    Lemma reln_length1 m ts1 ts2 : reln m ts1 ts2 -> m < length ts1 /\ m < length ts2.
+    Proof.
+      intros (pre & q & _ & L & -> & ->). rewrite !app_length.
+      destruct k1 as [|a r1]; [contradiction|]. destruct k2 as [|b r2]; [contradiction|]. cbn [length]. lia.
+    Qed.
+
+    Lemma comma_list_reln m ts1 ts2 : reln m ts1 ts2 -> rreln 1 m (comma_list item ts1) (comma_list item ts2).
+    Proof.
+      intros R. unfold comma_list. destruct (reln_length1 _ _ _ R) as [L1 L2].
+      apply (bind_reln 1 0 m (item ts1) (item ts2)); [apply item_reln, R|].
+      intros a t1 t2 m' Lm R'. apply list_more_reln; [exact R'|lia|lia].
+    Qed.
+  End CommaList.
+End RelN.
+
 (* ---------- the statement parsers under the relation ---------- *)
 Definition word_ok (w : word) : Prop :=
   match w with KwLike _ => True | Kind k => bytes_eqb (bs ";") (bs k) = false /\ bytes_eqb (bs K_eof) (bs k) = false end.
@@ -196,6 +311,151 @@ Section Rel2.
     intros t [H|H]; unfold other_create, is_kwlike; rewrite (kd _ _ K_ident H eq_refl), (kd _ _ "PROTO" H eq_refl), (kd _ _ "OR" H eq_refl); reflexivity.
   Qed.
 
+  (* ----- RENAME TABLE, GRANT, REVOKE ----- *)
+  Notation reln := (reln p k1 k2).
+  Notation rreln := (rreln p k1 k2).
+
+  Lemma ok_reln {A} (a : A) m t1 t2 : reln m t1 t2 -> rreln 0 m (Ok (a, t1)) (Ok (a, t2)).
+  Proof. intros R. cbn. split; [reflexivity|]. exists m. split; [lia|exact R]. Qed.
+
+  Ltac chain d1 d2 := apply (bind_reln p k1 k2 d1 d2).
+  Ltac kisafe := apply safe_kis; reflexivity.
+
+  Lemma rename_to_reln m ts1 ts2 : reln m ts1 ts2 -> rreln 1 m (rename_to ts1) (rename_to ts2).
+  Proof.
+    intros R. unfold rename_to. apply (rreln_weaken p k1 k2 (1 + (1 + (1 + 0))) 1 m m); [lia|lia|].
+    chain 1 (1 + (1 + 0)); [apply (parse_ident_reln p k1 k2 T1 T2), R|]. intros o t1 t2 m1 _ R1.
+    chain 1 (1 + 0); [apply (expect_reln p k1 k2 T1 T2); [kisafe|exact R1]|]. intros x u1 u2 m2 _ R2.
+    chain 1 0; [apply (parse_ident_reln p k1 k2 T1 T2), R2|]. intros n v1 v2 m3 _ R3. apply ok_reln, R3.
+  Qed.
+
+  Lemma parse_rename_reln pos m ts1 ts2 : reln m ts1 ts2 -> rreln 0 m (parse_rename pos ts1) (parse_rename pos ts2).
+  Proof.
+    intros R. unfold parse_rename. apply (rreln_weaken p k1 k2 (1 + (1 + 0)) 0 m m); [lia|lia|].
+    chain 1 (1 + 0); [apply (expect_kw_reln p k1 k2 T1 T2), R|]. intros x t1 t2 m1 _ R1.
+    chain 1 0; [apply (comma_list_reln p k1 k2 T1 T2); [exact rename_to_reln|exact R1]|]. intros l u1 u2 m2 _ R2. apply ok_reln, R2.
+  Qed.
+
+  Lemma idents_reln m ts1 ts2 : reln m ts1 ts2 -> rreln 1 m (comma_list parse_ident ts1) (comma_list parse_ident ts2).
+  Proof. apply (comma_list_reln p k1 k2 T1 T2). exact (parse_ident_reln p k1 k2 T1 T2). Qed.
+
+  Lemma priv_columns_reln m ts1 ts2 : reln m ts1 ts2 -> rreln 0 m (priv_columns ts1) (priv_columns ts2).
+  Proof.
+    intros R. unfold priv_columns. pose proof (safe_kis "(" eq_refl eq_refl) as SP. rewrite <- (test_reln p k1 k2 T1 T2 _ _ _ _ SP R).
+    destruct (kis (cur ts1) "(") eqn:K; [|apply ok_reln, R].
+    destruct (step_reln p k1 k2 T1 T2 _ _ _ _ SP R K) as [_ (m' & -> & R')].
+    apply (rreln_weaken p k1 k2 (1 + (1 + 0)) 0 m' (S m')); [lia|lia|].
+    chain 1 (1 + 0); [apply idents_reln, R'|]. intros cols t1 t2 m1 _ R1.
+    chain 1 0; [apply (expect_reln p k1 k2 T1 T2); [kisafe|exact R1]|]. intros rp u1 u2 m2 _ R2. apply ok_reln, R2.
+  Qed.
+
+  Lemma with_cols_reln ty (z : Z) m ts1 ts2 : reln m ts1 ts2 ->
+    rreln 0 m (do (cr, r) <- priv_columns ts1; let '(cols, rp) := cr in Ok (FSub ty [FPos z; FPos rp; cols], r))
+              (do (cr, r) <- priv_columns ts2; let '(cols, rp) := cr in Ok (FSub ty [FPos z; FPos rp; cols], r)).
+  Proof.
+    intros R. apply (rreln_weaken p k1 k2 (0 + 0) 0 m m); [lia|lia|].
+    chain 0 0; [apply priv_columns_reln, R|]. intros [cols rp] t1 t2 m1 _ R1. apply ok_reln, R1.
+  Qed.
+
+  Lemma table_privilege_reln m ts1 ts2 : reln m ts1 ts2 -> rreln 1 m (table_privilege ts1) (table_privilege ts2).
+  Proof.
+    intros R. unfold table_privilege.
+    pose proof (safe_kis "SELECT" eq_refl eq_refl) as SS. rewrite <- (test_reln p k1 k2 T1 T2 _ _ _ _ SS R).
+    destruct (kis (cur ts1) "SELECT") eqn:KS.
+    { destruct (step_reln p k1 k2 T1 T2 _ _ _ _ SS R KS) as [E (m' & -> & R')]. rewrite <- E.
+      pose proof (with_cols_reln "SelectPrivilege" (ppos (cur ts1)) m' _ _ R') as W.
+      destruct (do (cr, r) <- priv_columns (next ts1); let '(cols, rp) := cr in Ok (FSub "SelectPrivilege" [FPos (ppos (cur ts1)); FPos rp; cols], r)) as [[a t1]| | |],
+               (do (cr, r) <- priv_columns (next ts2); let '(cols, rp) := cr in Ok (FSub "SelectPrivilege" [FPos (ppos (cur ts1)); FPos rp; cols], r)) as [[b t2]| | |];
+        cbn in W |- *; try contradiction; auto.
+      destruct W as [-> (m2 & L & R2)]. split; [reflexivity|]. exists m2. split; [lia|exact R2]. }
+    pose proof (safe_kwlike "INSERT") as SI. rewrite <- (test_reln p k1 k2 T1 T2 _ _ _ _ SI R).
+    destruct (is_kwlike (cur ts1) "INSERT") eqn:KI.
+    { destruct (step_reln p k1 k2 T1 T2 _ _ _ _ SI R KI) as [E (m' & -> & R')]. rewrite <- E.
+      pose proof (with_cols_reln "InsertPrivilege" (ppos (cur ts1)) m' _ _ R') as W.
+      destruct (do (cr, r) <- priv_columns (next ts1); let '(cols, rp) := cr in Ok (FSub "InsertPrivilege" [FPos (ppos (cur ts1)); FPos rp; cols], r)) as [[a t1]| | |],
+               (do (cr, r) <- priv_columns (next ts2); let '(cols, rp) := cr in Ok (FSub "InsertPrivilege" [FPos (ppos (cur ts1)); FPos rp; cols], r)) as [[b t2]| | |];
+        cbn in W |- *; try contradiction; auto.
+      destruct W as [-> (m2 & L & R2)]. split; [reflexivity|]. exists m2. split; [lia|exact R2]. }
+    pose proof (safe_kwlike "UPDATE") as SU. rewrite <- (test_reln p k1 k2 T1 T2 _ _ _ _ SU R).
+    destruct (is_kwlike (cur ts1) "UPDATE") eqn:KU.
+    { destruct (step_reln p k1 k2 T1 T2 _ _ _ _ SU R KU) as [E (m' & -> & R')]. rewrite <- E.
+      pose proof (with_cols_reln "UpdatePrivilege" (ppos (cur ts1)) m' _ _ R') as W.
+      destruct (do (cr, r) <- priv_columns (next ts1); let '(cols, rp) := cr in Ok (FSub "UpdatePrivilege" [FPos (ppos (cur ts1)); FPos rp; cols], r)) as [[a t1]| | |],
+               (do (cr, r) <- priv_columns (next ts2); let '(cols, rp) := cr in Ok (FSub "UpdatePrivilege" [FPos (ppos (cur ts1)); FPos rp; cols], r)) as [[b t2]| | |];
+        cbn in W |- *; try contradiction; auto.
+      destruct W as [-> (m2 & L & R2)]. split; [reflexivity|]. exists m2. split; [lia|exact R2]. }
+    pose proof (safe_kwlike "DELETE") as SD. rewrite <- (test_reln p k1 k2 T1 T2 _ _ _ _ SD R).
+    destruct (is_kwlike (cur ts1) "DELETE") eqn:KD; [|cbn; exact I].
+    destruct (step_reln p k1 k2 T1 T2 _ _ _ _ SD R KD) as [E (m' & -> & R')]. rewrite <- E.
+    cbn. split; [reflexivity|]. exists m'. split; [lia|exact R'].
+  Qed.
+
+  (* look-ahead over three tokens (the tryParse... functions restore the lexer when the test fails) *)
+  Lemma look3 f1 f2 f3 m ts1 ts2 : safe f1 -> safe f2 -> safe f3 -> reln m ts1 ts2 ->
+    (f1 (cur ts1) && f2 (cur (next ts1)) && f3 (cur (next (next ts1)))) = (f1 (cur ts2) && f2 (cur (next ts2)) && f3 (cur (next (next ts2)))) /\
+    ((f1 (cur ts1) && f2 (cur (next ts1)) && f3 (cur (next (next ts1)))) = true ->
+       cur ts1 = cur ts2 /\ exists m', m' + 3 <= m /\ reln m' (next (next (next ts1))) (next (next (next ts2)))).
+  Proof.
+    intros S1 S2 S3 R. rewrite <- (test_reln p k1 k2 T1 T2 _ _ _ _ S1 R).
+    destruct (f1 (cur ts1)) eqn:F1; cbn [andb]; [|split; [reflexivity|discriminate]].
+    destruct (step_reln p k1 k2 T1 T2 _ _ _ _ S1 R F1) as [E (m1 & -> & R1)].
+    rewrite <- (test_reln p k1 k2 T1 T2 _ _ _ _ S2 R1).
+    destruct (f2 (cur (next ts1))) eqn:F2; cbn [andb]; [|split; [reflexivity|discriminate]].
+    destruct (step_reln p k1 k2 T1 T2 _ _ _ _ S2 R1 F2) as [_ (m2 & -> & R2)].
+    rewrite <- (test_reln p k1 k2 T1 T2 _ _ _ _ S3 R2).
+    split; [reflexivity|]. intros F3.
+    destruct (step_reln p k1 k2 T1 T2 _ _ _ _ S3 R2 F3) as [_ (m3 & -> & R3)].
+    split; [exact E|]. exists m3. split; [lia|exact R3].
+  Qed.
+
+  Lemma privilege_reln m ts1 ts2 : reln m ts1 ts2 -> rreln 1 m (privilege ts1) (privilege ts2).
+  Proof.
+    intros R. unfold privilege.
+    destruct (look3 (fun t => kis t "SELECT") (fun t => kis t "ON") (fun t => is_kwlike t "VIEW") m ts1 ts2
+                ltac:(kisafe) ltac:(kisafe) (safe_kwlike "VIEW") R) as [EV LV].
+    rewrite <- EV.
+    destruct (kis (cur ts1) "SELECT" && kis (cur (next ts1)) "ON" && is_kwlike (cur (next (next ts1))) "VIEW").
+    { destruct (LV eq_refl) as [E (m' & L & R')]. rewrite <- E.
+      apply (rreln_weaken p k1 k2 (1 + 0) 1 m' m); [lia|lia|].
+      chain 1 0; [apply idents_reln, R'|]. intros names t1 t2 m1 _ R1. apply ok_reln, R1. }
+    clear EV LV.
+    pose proof (safe_kwlike "EXECUTE") as SE. rewrite <- (test_reln p k1 k2 T1 T2 _ _ _ _ SE R).
+    destruct (is_kwlike (cur ts1) "EXECUTE") eqn:KE.
+    { destruct (step_reln p k1 k2 T1 T2 _ _ _ _ SE R KE) as [E (m' & -> & R')]. rewrite <- E.
+      apply (rreln_weaken p k1 k2 (1 + (1 + (1 + (1 + 0)))) 1 m' (S m')); [lia|lia|].
+      chain 1 (1 + (1 + (1 + 0))); [apply (expect_reln p k1 k2 T1 T2); [kisafe|exact R']|]. intros x1 t1 t2 m1 _ R1.
+      chain 1 (1 + (1 + 0)); [apply (expect_kw_reln p k1 k2 T1 T2), R1|]. intros x2 u1 u2 m2 _ R2.
+      chain 1 (1 + 0); [apply (expect_kw_reln p k1 k2 T1 T2), R2|]. intros x3 v1 v2 m3 _ R3.
+      chain 1 0; [apply idents_reln, R3|]. intros names w1 w2 m4 _ R4. apply ok_reln, R4. }
+    pose proof (safe_kwlike "ROLE") as SR. rewrite <- (test_reln p k1 k2 T1 T2 _ _ _ _ SR R).
+    destruct (is_kwlike (cur ts1) "ROLE") eqn:KR.
+    { destruct (step_reln p k1 k2 T1 T2 _ _ _ _ SR R KR) as [E (m' & -> & R')]. rewrite <- E.
+      apply (rreln_weaken p k1 k2 (1 + 0) 1 m' (S m')); [lia|lia|].
+      chain 1 0; [apply idents_reln, R'|]. intros names t1 t2 m1 _ R1. apply ok_reln, R1. }
+    destruct (look3 (fun t => kis t "SELECT") (fun t => kis t "ON") (fun t => is_kwlike t "CHANGE") m ts1 ts2
+                ltac:(kisafe) ltac:(kisafe) (safe_kwlike "CHANGE") R) as [EC LC].
+    rewrite <- EC.
+    destruct (kis (cur ts1) "SELECT" && kis (cur (next ts1)) "ON" && is_kwlike (cur (next (next ts1))) "CHANGE").
+    { destruct (LC eq_refl) as [E (m' & L & R')]. rewrite <- E.
+      apply (rreln_weaken p k1 k2 (1 + (1 + 0)) 1 m' m); [lia|lia|].
+      chain 1 (1 + 0); [apply (expect_kw_reln p k1 k2 T1 T2), R'|]. intros x t1 t2 m1 _ R1.
+      chain 1 0; [apply idents_reln, R1|]. intros names u1 u2 m2 _ R2. apply ok_reln, R2. }
+    apply (rreln_weaken p k1 k2 (1 + (1 + (1 + (1 + 0)))) 1 m m); [lia|lia|].
+    chain 1 (1 + (1 + (1 + 0))); [apply (comma_list_reln p k1 k2 T1 T2); [exact table_privilege_reln|exact R]|]. intros privs t1 t2 m1 _ R1.
+    chain 1 (1 + (1 + 0)); [apply (expect_reln p k1 k2 T1 T2); [kisafe|exact R1]|]. intros x1 u1 u2 m2 _ R2.
+    chain 1 (1 + 0); [apply (expect_kw_reln p k1 k2 T1 T2), R2|]. intros x2 v1 v2 m3 _ R3.
+    chain 1 0; [apply idents_reln, R3|]. intros names w1 w2 m4 _ R4. apply ok_reln, R4.
+  Qed.
+
+  Lemma parse_grant_reln rv pos m ts1 ts2 : reln m ts1 ts2 -> rreln 0 m (parse_grant rv pos ts1) (parse_grant rv pos ts2).
+  Proof.
+    intros R. unfold parse_grant. apply (rreln_weaken p k1 k2 (1 + (1 + (1 + (1 + 0)))) 0 m m); [lia|lia|].
+    chain 1 (1 + (1 + (1 + 0))); [apply privilege_reln, R|]. intros pv t1 t2 m1 _ R1.
+    chain 1 (1 + (1 + 0)); [apply (expect_reln p k1 k2 T1 T2); [destruct rv; kisafe|exact R1]|]. intros x1 u1 u2 m2 _ R2.
+    chain 1 (1 + 0); [apply (expect_kw_reln p k1 k2 T1 T2), R2|]. intros x2 v1 v2 m3 _ R3.
+    chain 1 0; [apply idents_reln, R3|]. intros roles w1 w2 m4 _ R4. apply ok_reln, R4.
+  Qed.
+
   Definition orel (o1 o2 : option (ExprModel.res (dnode * toks))) : Prop :=
     match o1, o2 with None, None => True | Some r1, Some r2 => rrel r1 r2 | _, _ => False end.
 
@@ -222,9 +482,21 @@ Section Rel2.
     { cbn [orel]. pose proof (expect_kw_rel p k1 k2 T1 T2 "ANALYZE" _ _ R) as E.
       destruct (expect_kw "ANALYZE" ts1) as [[t a]| | |], (expect_kw "ANALYZE" ts2) as [[t' a']| | |]; cbn [StmtProofs.rrel bind] in *; try contradiction; auto.
       destruct E as [-> R1]. auto. }
-    rewrite <- (test_rel p k1 k2 T1 T2 _ _ _ (safe_kwlike "ALTER") R), <- (test_rel p k1 k2 T1 T2 _ _ _ (safe_kwlike "RENAME") R),
-            <- (test_rel p k1 k2 T1 T2 _ _ _ (safe_kwlike "GRANT") R), <- (test_rel p k1 k2 T1 T2 _ _ _ (safe_kwlike "REVOKE") R).
-    destruct (is_kwlike (cur ts1) "ALTER" || is_kwlike (cur ts1) "RENAME" || is_kwlike (cur ts1) "GRANT" || is_kwlike (cur ts1) "REVOKE"); cbn; auto.
+    destruct (rel_reln p k1 k2 _ _ R) as [m RN].
+    pose proof (safe_kwlike "RENAME") as SRN. rewrite <- (test_rel p k1 k2 T1 T2 _ _ _ SRN R).
+    destruct (is_kwlike (cur ts1) "RENAME") eqn:KRN.
+    { destruct (step_reln p k1 k2 T1 T2 _ _ _ _ SRN RN KRN) as [E (m' & -> & R')]. rewrite <- E. cbn [orel].
+      eapply rreln_rrel. apply parse_rename_reln, R'. }
+    pose proof (safe_kwlike "GRANT") as SG. rewrite <- (test_rel p k1 k2 T1 T2 _ _ _ SG R).
+    destruct (is_kwlike (cur ts1) "GRANT") eqn:KG.
+    { destruct (step_reln p k1 k2 T1 T2 _ _ _ _ SG RN KG) as [E (m' & -> & R')]. rewrite <- E. cbn [orel].
+      eapply rreln_rrel. apply parse_grant_reln, R'. }
+    pose proof (safe_kwlike "REVOKE") as SV. rewrite <- (test_rel p k1 k2 T1 T2 _ _ _ SV R).
+    destruct (is_kwlike (cur ts1) "REVOKE") eqn:KV.
+    { destruct (step_reln p k1 k2 T1 T2 _ _ _ _ SV RN KV) as [E (m' & -> & R')]. rewrite <- E. cbn [orel].
+      eapply rreln_rrel. apply parse_grant_reln, R'. }
+    rewrite <- (test_rel p k1 k2 T1 T2 _ _ _ (safe_kwlike "ALTER") R).
+    destruct (is_kwlike (cur ts1) "ALTER"); cbn; auto.
   Qed.
 End Rel2.
 
@@ -351,7 +623,17 @@ Proof.
     intros H. inversion H as [H1]. destruct (parse_row_node _ _ _ _ _ H1) as [fs ->]. eauto. }
   destruct (is_kwlike (cur ts) "ANALYZE").
   { destruct (expect_kw "ANALYZE" ts) as [[a ts1]| | |]; cbn [bind]; try discriminate. intros H. inversion H; subst. eauto. }
-  destruct (is_kwlike (cur ts) "ALTER" || is_kwlike (cur ts) "RENAME" || is_kwlike (cur ts) "GRANT" || is_kwlike (cur ts) "REVOKE"); discriminate.
+  destruct (is_kwlike (cur ts) "RENAME").
+  { unfold parse_rename. destruct (expect_kw "TABLE" (next ts)) as [[a ts1]| | |]; cbn [bind]; try discriminate.
+    destruct (comma_list rename_to ts1) as [[l ts2]| | |]; cbn [bind]; try discriminate. intros H. inversion H; subst. eauto. }
+  assert (G : forall rv pos ts0, parse_grant rv pos ts0 = Ok (d, r) -> exists ty fs, d = DNode ty fs).
+  { intros rv pos ts0. unfold parse_grant. destruct (privilege ts0) as [[pv a]| | |]; cbn [bind]; try discriminate.
+    destruct (expect (if rv then "FROM" else "TO") a) as [[x b]| | |]; cbn [bind]; try discriminate.
+    destruct (expect_kw "ROLE" b) as [[y c]| | |]; cbn [bind]; try discriminate.
+    destruct (comma_list parse_ident c) as [[roles e]| | |]; cbn [bind]; try discriminate. intros H. inversion H; subst. eauto. }
+  destruct (is_kwlike (cur ts) "GRANT"); [intros H; inversion H as [H1]; exact (G _ _ _ H1)|].
+  destruct (is_kwlike (cur ts) "REVOKE"); [intros H; inversion H as [H1]; exact (G _ _ _ H1)|].
+  destruct (is_kwlike (cur ts) "ALTER"); discriminate.
 Qed.
 
 (* C09 on the family: no error exactly when the success path returned its node; otherwise one error and one Bad node *)
@@ -386,10 +668,30 @@ Proof. unfold is_kwlike. intros D H. apply andb_true_iff in H as [K _]. exact (k
 Lemma kind_kwlike t k a : bytes_eqb (bs k) (bs K_ident) = false -> kis t k = true -> is_kwlike t a = false.
 Proof. unfold is_kwlike. intros D H. rewrite (kd _ _ K_ident H D). reflexivity. Qed.
 
-Theorem family_entry_points_agree ts :
-  kis (cur ts) "CREATE" || is_kwlike (cur ts) "DROP" || is_kwlike (cur ts) "ANALYZE" = true -> sp_stmt ts = sp_ddl ts.
+Lemma kwlike_head_agrees ts w :
+  bytes_eqb (to_upper (bs w)) (to_upper (bs "INSERT")) = false -> bytes_eqb (to_upper (bs w)) (to_upper (bs "DELETE")) = false ->
+  bytes_eqb (to_upper (bs w)) (to_upper (bs "UPDATE")) = false ->
+  is_kwlike (cur ts) w = true ->
+  (is_kwlike (cur ts) "ALTER" || is_kwlike (cur ts) "DROP" || is_kwlike (cur ts) "RENAME" || is_kwlike (cur ts) "GRANT"
+   || is_kwlike (cur ts) "REVOKE" || is_kwlike (cur ts) "ANALYZE" = true) ->
+  sp_stmt ts = sp_ddl ts.
 Proof.
-  intros H. unfold sp_stmt. set (t := cur ts) in *.
+  intros NI ND NU W HD. unfold sp_stmt. set (t := cur ts) in *.
+  rewrite (kwlike_kind t w "@" eq_refl W), (kwlike_kind t w "SELECT" eq_refl W), (kwlike_kind t w "WITH" eq_refl W),
+          (kwlike_kind t w "(" eq_refl W), (kwlike_kind t w "FROM" eq_refl W).
+  rewrite (kwlike_excl t w "INSERT" NI W), (kwlike_excl t w "DELETE" ND W), (kwlike_excl t w "UPDATE" NU W).
+  cbn [orb]. rewrite (kwlike_kind t w "CREATE" eq_refl W). cbn [orb]. rewrite HD. reflexivity.
+Qed.
+
+Theorem family_entry_points_agree ts :
+  kis (cur ts) "CREATE" || is_kwlike (cur ts) "DROP" || is_kwlike (cur ts) "ANALYZE" || is_kwlike (cur ts) "RENAME"
+  || is_kwlike (cur ts) "GRANT" || is_kwlike (cur ts) "REVOKE" = true -> sp_stmt ts = sp_ddl ts.
+Proof.
+  intros H.
+  apply orb_true_iff in H as [H|V]; [|apply (kwlike_head_agrees ts "REVOKE" eq_refl eq_refl eq_refl V); rewrite V; rewrite ?orb_true_r; reflexivity].
+  apply orb_true_iff in H as [H|G]; [|apply (kwlike_head_agrees ts "GRANT" eq_refl eq_refl eq_refl G); rewrite G; rewrite ?orb_true_r; reflexivity].
+  apply orb_true_iff in H as [H|RN]; [|apply (kwlike_head_agrees ts "RENAME" eq_refl eq_refl eq_refl RN); rewrite RN; rewrite ?orb_true_r; reflexivity].
+  unfold sp_stmt. set (t := cur ts) in *.
   apply orb_true_iff in H as [H|A]; [apply orb_true_iff in H as [C|D]|].
   - rewrite (kd _ _ "@" C eq_refl), (kd _ _ "SELECT" C eq_refl), (kd _ _ "WITH" C eq_refl), (kd _ _ "(" C eq_refl), (kd _ _ "FROM" C eq_refl).
     rewrite !(kind_kwlike t "CREATE" _ eq_refl C). rewrite C. reflexivity.
@@ -434,6 +736,158 @@ Proof.
   - pose proof (parse_path_nofuel b). destruct (parse_path b) as [[ids c]| | |]; cbn [bind]; congruence.
 Qed.
 
+(* the comma-separated lists: the fuel of the model (the input length) is always enough *)
+Section ListTotal.
+  Context {A : Type} (item : toks -> ExprModel.res (A * toks)).
+  Hypothesis item_nofuel : forall ts, item ts <> Fuel.
+  Hypothesis item_shrinks : forall ts x r, item ts = Ok (x, r) -> length r <= length ts /\ kis (cur ts) "," = false.
+
+  Lemma comma_moves ts x r : kis (cur ts) "," = true -> item (next ts) = Ok (x, r) -> length r < length ts.
+  Proof.
+    intros K E. destruct (item_shrinks _ _ _ E) as [L NC]. destruct (next_cases ts) as [Q|Q]; [rewrite Q in NC; congruence|lia].
+  Qed.
+
+  Lemma list_more_total : forall n acc ts, length ts < n -> list_more item n acc ts <> Fuel.
+  Proof.
+    induction n as [|n IH]; intros acc ts L; [lia|]. cbn [list_more]. destruct (kis (cur ts) ",") eqn:K; [|discriminate].
+    destruct (item (next ts)) as [[x r]| | |] eqn:E; cbn [bind]; try discriminate; [|exfalso; exact (item_nofuel _ E)].
+    apply IH. pose proof (comma_moves _ _ _ K E). lia.
+  Qed.
+
+  Lemma list_more_le : forall n acc ts l r, list_more item n acc ts = Ok (l, r) -> length r <= length ts.
+  Proof.
+    induction n as [|n IH]; intros acc ts l r; cbn [list_more]; [discriminate|]. destruct (kis (cur ts) ",") eqn:K; [|intros H; inversion H; subst; lia].
+    destruct (item (next ts)) as [[x r0]| | |] eqn:E; cbn [bind]; try discriminate.
+    intros H. apply IH in H. pose proof (comma_moves _ _ _ K E). lia.
+  Qed.
+
+  Lemma comma_list_nofuel ts : comma_list item ts <> Fuel.
+  Proof.
+    unfold comma_list. destruct (item ts) as [[x r]| | |] eqn:E; cbn [bind]; try discriminate; [|exfalso; exact (item_nofuel _ E)].
+    apply list_more_total. destruct (item_shrinks _ _ _ E). lia.
+  Qed.
+
+  Lemma comma_list_shrinks ts l r : comma_list item ts = Ok (l, r) -> length r <= length ts /\ kis (cur ts) "," = false.
+  Proof.
+    unfold comma_list. destruct (item ts) as [[x r0]| | |] eqn:E; cbn [bind]; try discriminate.
+    intros H. apply list_more_le in H. destruct (item_shrinks _ _ _ E). split; [lia|assumption].
+  Qed.
+End ListTotal.
+
+Lemma expect_shrinks k ts t r : expect k ts = Ok (t, r) -> length r <= length ts /\ kis (cur ts) k = true.
+Proof. intros H. apply expect_ok in H as (K & _ & ->). split; [apply next_le|exact K]. Qed.
+
+Lemma expect_kw_shrinks s ts t r : expect_kw s ts = Ok (t, r) -> length r <= length ts /\ is_kwlike (cur ts) s = true.
+Proof.
+  unfold expect_kw. destruct (expect K_ident ts) as [[t0 r0]| | |] eqn:E; cbn [bind]; try discriminate.
+  apply expect_ok in E as (K & -> & ->). destruct (is_kwlike (cur ts) s) eqn:W; intros H; inversion H; subst. split; [apply next_le|reflexivity].
+Qed.
+
+Lemma expect_kw_nofuel s ts : expect_kw s ts <> Fuel.
+Proof. unfold expect_kw, expect. destruct (kis (cur ts) K_ident); cbn [bind]; [|discriminate]. destruct (is_kwlike (cur ts) s); discriminate. Qed.
+
+Lemma ident_shrinks ts i r : parse_ident ts = Ok (i, r) -> length r <= length ts /\ kis (cur ts) "," = false.
+Proof. intros H. apply parse_ident_ok in H as (K & _ & ->). split; [apply next_le|exact (kd _ _ "," K eq_refl)]. Qed.
+
+Lemma idents_nofuel ts : comma_list parse_ident ts <> Fuel.
+Proof. apply comma_list_nofuel; [exact parse_ident_nofuel|exact ident_shrinks]. Qed.
+
+Lemma idents_shrinks ts l r : comma_list parse_ident ts = Ok (l, r) -> length r <= length ts /\ kis (cur ts) "," = false.
+Proof. apply comma_list_shrinks. exact ident_shrinks. Qed.
+
+Lemma rename_to_nofuel ts : rename_to ts <> Fuel.
+Proof.
+  unfold rename_to. pose proof (parse_ident_nofuel ts). destruct (parse_ident ts) as [[o a]| | |]; cbn [bind]; try congruence.
+  pose proof (expect_nofuel "TO" a). destruct (expect "TO" a) as [[x b]| | |]; cbn [bind]; try congruence.
+  pose proof (parse_ident_nofuel b). destruct (parse_ident b) as [[n c]| | |]; cbn [bind]; congruence.
+Qed.
+
+Lemma rename_to_shrinks ts x r : rename_to ts = Ok (x, r) -> length r <= length ts /\ kis (cur ts) "," = false.
+Proof.
+  unfold rename_to. destruct (parse_ident ts) as [[o a]| | |] eqn:E1; cbn [bind]; try discriminate.
+  destruct (expect "TO" a) as [[y b]| | |] eqn:E2; cbn [bind]; try discriminate.
+  destruct (parse_ident b) as [[n c]| | |] eqn:E3; cbn [bind]; try discriminate. intros H. inversion H; subst.
+  apply ident_shrinks in E1 as [L1 NC]. apply expect_shrinks in E2 as [L2 _]. apply ident_shrinks in E3 as [L3 _]. split; [lia|exact NC].
+Qed.
+
+Lemma parse_rename_nofuel pos ts : parse_rename pos ts <> Fuel.
+Proof.
+  unfold parse_rename. pose proof (expect_kw_nofuel "TABLE" ts). destruct (expect_kw "TABLE" ts) as [[x a]| | |]; cbn [bind]; try congruence.
+  pose proof (comma_list_nofuel rename_to rename_to_nofuel rename_to_shrinks a). destruct (comma_list rename_to a) as [[l b]| | |]; cbn [bind]; congruence.
+Qed.
+
+Lemma priv_columns_nofuel ts : priv_columns ts <> Fuel.
+Proof.
+  unfold priv_columns. destruct (kis (cur ts) "("); [|discriminate].
+  pose proof (idents_nofuel (next ts)). destruct (comma_list parse_ident (next ts)) as [[cols a]| | |]; cbn [bind]; try congruence.
+  pose proof (expect_nofuel ")" a). destruct (expect ")" a) as [[rp b]| | |]; cbn [bind]; congruence.
+Qed.
+
+Lemma priv_columns_le ts c r : priv_columns ts = Ok (c, r) -> length r <= length ts.
+Proof.
+  unfold priv_columns. destruct (kis (cur ts) "("); [|intros H; inversion H; subst; lia].
+  destruct (comma_list parse_ident (next ts)) as [[cols a]| | |] eqn:E1; cbn [bind]; try discriminate.
+  destruct (expect ")" a) as [[rp b]| | |] eqn:E2; cbn [bind]; try discriminate. intros H. inversion H; subst.
+  apply idents_shrinks in E1 as [L1 _]. apply expect_shrinks in E2 as [L2 _]. pose proof (next_le ts). lia.
+Qed.
+
+Lemma kwlike_not_comma t s : is_kwlike t s = true -> kis t "," = false.
+Proof. intros H. exact (kwlike_kind t s "," eq_refl H). Qed.
+
+Lemma table_privilege_nofuel ts : table_privilege ts <> Fuel.
+Proof.
+  unfold table_privilege. pose proof (priv_columns_nofuel (next ts)) as N.
+  destruct (kis (cur ts) "SELECT"); [destruct (priv_columns (next ts)) as [[[c z] a]| | |]; cbn [bind]; congruence|].
+  destruct (is_kwlike (cur ts) "INSERT"); [destruct (priv_columns (next ts)) as [[[c z] a]| | |]; cbn [bind]; congruence|].
+  destruct (is_kwlike (cur ts) "UPDATE"); [destruct (priv_columns (next ts)) as [[[c z] a]| | |]; cbn [bind]; congruence|].
+  destruct (is_kwlike (cur ts) "DELETE"); discriminate.
+Qed.
+
+Lemma table_privilege_shrinks ts x r : table_privilege ts = Ok (x, r) -> length r <= length ts /\ kis (cur ts) "," = false.
+Proof.
+  unfold table_privilege. pose proof (next_le ts) as NL.
+  destruct (kis (cur ts) "SELECT") eqn:KS.
+  { destruct (priv_columns (next ts)) as [[[c z] a]| | |] eqn:E; cbn [bind]; try discriminate. intros H. inversion H; subst.
+    apply priv_columns_le in E. split; [lia|exact (kd _ _ "," KS eq_refl)]. }
+  destruct (is_kwlike (cur ts) "INSERT") eqn:KI.
+  { destruct (priv_columns (next ts)) as [[[c z] a]| | |] eqn:E; cbn [bind]; try discriminate. intros H. inversion H; subst.
+    apply priv_columns_le in E. split; [lia|exact (kwlike_not_comma _ _ KI)]. }
+  destruct (is_kwlike (cur ts) "UPDATE") eqn:KU.
+  { destruct (priv_columns (next ts)) as [[[c z] a]| | |] eqn:E; cbn [bind]; try discriminate. intros H. inversion H; subst.
+    apply priv_columns_le in E. split; [lia|exact (kwlike_not_comma _ _ KU)]. }
+  destruct (is_kwlike (cur ts) "DELETE") eqn:KD; [|discriminate]. intros H. inversion H; subst. split; [lia|exact (kwlike_not_comma _ _ KD)].
+Qed.
+
+Lemma privilege_nofuel ts : privilege ts <> Fuel.
+Proof.
+  unfold privilege.
+  destruct (kis (cur ts) "SELECT" && kis (cur (next ts)) "ON" && is_kwlike (cur (next (next ts))) "VIEW").
+  { pose proof (idents_nofuel (next (next (next ts)))). destruct (comma_list parse_ident (next (next (next ts)))) as [[l a]| | |]; cbn [bind]; congruence. }
+  destruct (is_kwlike (cur ts) "EXECUTE").
+  { pose proof (expect_nofuel "ON" (next ts)). destruct (expect "ON" (next ts)) as [[x a]| | |]; cbn [bind]; try congruence.
+    pose proof (expect_kw_nofuel "TABLE" a). destruct (expect_kw "TABLE" a) as [[y b]| | |]; cbn [bind]; try congruence.
+    pose proof (expect_kw_nofuel "FUNCTION" b). destruct (expect_kw "FUNCTION" b) as [[z c]| | |]; cbn [bind]; try congruence.
+    pose proof (idents_nofuel c). destruct (comma_list parse_ident c) as [[l e]| | |]; cbn [bind]; congruence. }
+  destruct (is_kwlike (cur ts) "ROLE").
+  { pose proof (idents_nofuel (next ts)). destruct (comma_list parse_ident (next ts)) as [[l a]| | |]; cbn [bind]; congruence. }
+  destruct (kis (cur ts) "SELECT" && kis (cur (next ts)) "ON" && is_kwlike (cur (next (next ts))) "CHANGE").
+  { pose proof (expect_kw_nofuel "STREAM" (next (next (next ts)))). destruct (expect_kw "STREAM" (next (next (next ts)))) as [[x a]| | |]; cbn [bind]; try congruence.
+    pose proof (idents_nofuel a). destruct (comma_list parse_ident a) as [[l b]| | |]; cbn [bind]; congruence. }
+  pose proof (comma_list_nofuel table_privilege table_privilege_nofuel table_privilege_shrinks ts).
+  destruct (comma_list table_privilege ts) as [[pv a]| | |]; cbn [bind]; try congruence.
+  pose proof (expect_nofuel "ON" a). destruct (expect "ON" a) as [[x b]| | |]; cbn [bind]; try congruence.
+  pose proof (expect_kw_nofuel "TABLE" b). destruct (expect_kw "TABLE" b) as [[y c]| | |]; cbn [bind]; try congruence.
+  pose proof (idents_nofuel c). destruct (comma_list parse_ident c) as [[l e]| | |]; cbn [bind]; congruence.
+Qed.
+
+Lemma parse_grant_nofuel rv pos ts : parse_grant rv pos ts <> Fuel.
+Proof.
+  unfold parse_grant. pose proof (privilege_nofuel ts). destruct (privilege ts) as [[pv a]| | |]; cbn [bind]; try congruence.
+  pose proof (expect_nofuel (if rv then "FROM" else "TO") a). destruct (expect (if rv then "FROM" else "TO") a) as [[x b]| | |]; cbn [bind]; try congruence.
+  pose proof (expect_kw_nofuel "ROLE" b). destruct (expect_kw "ROLE" b) as [[y c]| | |]; cbn [bind]; try congruence.
+  pose proof (idents_nofuel c). destruct (comma_list parse_ident c) as [[l e]| | |]; cbn [bind]; congruence.
+Qed.
+
 Theorem ddl_body_nofuel ts : ddl_body ts <> Some Fuel.
 Proof.
   unfold ddl_body. destruct (kis (cur ts) "CREATE").
@@ -443,5 +897,8 @@ Proof.
   { destruct (find_row drop_rows (cur (next ts))) as [r|]; [|discriminate]. intros H. inversion H as [H1]. exact (parse_row_nofuel _ _ _ H1). }
   destruct (is_kwlike (cur ts) "ANALYZE").
   { unfold expect_kw, expect. destruct (kis (cur ts) K_ident); cbn [bind]; [|discriminate]. destruct (is_kwlike (cur ts) "ANALYZE"); cbn [bind]; discriminate. }
-  destruct (is_kwlike (cur ts) "ALTER" || is_kwlike (cur ts) "RENAME" || is_kwlike (cur ts) "GRANT" || is_kwlike (cur ts) "REVOKE"); discriminate.
+  destruct (is_kwlike (cur ts) "RENAME"); [intros H; inversion H as [H1]; exact (parse_rename_nofuel _ _ H1)|].
+  destruct (is_kwlike (cur ts) "GRANT"); [intros H; inversion H as [H1]; exact (parse_grant_nofuel _ _ _ H1)|].
+  destruct (is_kwlike (cur ts) "REVOKE"); [intros H; inversion H as [H1]; exact (parse_grant_nofuel _ _ _ H1)|].
+  destruct (is_kwlike (cur ts) "ALTER"); discriminate.
 Qed.
